@@ -20,6 +20,7 @@ import PdProps.C04Inh
 import PdProps.C04ReexpC
 import PdProps.C04ReexpE
 import PdProps.C04ReexpF
+import PdProps.C04ReexpG
 
 namespace Names
 open Registry
@@ -813,6 +814,27 @@ theorem resolve_sound_reexport_partial (proj : Project) (rank : List Nat) (hsl :
     ResolveSoundReexport proj rank :=
   resolve_sound_reexport_of proj rank Rx.reparent_ok hsl
 
+/-- **soundness with re-export moves** (M3): for every `WFr` project (`WF` with `noReexport` replaced by the
+decidable `reexportShape`, plus `pkgFromOk` and `modNamesOk`), every processing order that covers every module, every
+import order of Python, every scope and every dotted name (inherited attribute steps included): if pydoctor
+resolves the name to `a` and Python binds it to `b`, then `a` is `b` relocated to where the re-export documents it.
+No hypothesis on the run: it raises nothing (`wfr_run_clean`), `reparent` included (`Rx.reparent_ok`). -/
+theorem resolve_sound_reexport (proj : Project) (rank : List Nat) : ResolveSoundReexport proj rank :=
+  fun hwf => resolve_sound_reexport_of proj rank Rx.reparent_ok (Rx.subLookup_of hwf) hwf
+
+/-- **order independence with re-export moves**: what a Python-bound name resolves to does not depend on the
+order in which the modules are processed -/
+theorem resolve_order_independent_reexport (proj : Project) (rank : List Nat) :
+    ResolveOrderIndependentReexport proj rank :=
+  (resolve_sound_reexport proj rank).order_independent
+
+/-- **a `WFr` project is analysed cleanly**, re-export moves included: no registry exception (none from
+`reparent` either), no duplicate, no failed assertion, no fuel exhaustion, whatever the processing order -/
+theorem wfr_run_clean (proj : Project) (rank : List Nat) (hwf : WFr proj rank = true) (ord : List Nat) :
+    (run proj ord).bad = false := by
+  obtain ⟨wf, rx⟩ := WFr.facts hwf
+  exact (Rx.run_ok wf rx Rx.reparent_ok (Rx.subLookup_of hwf) ord).1
+
 /-- the definer's body: a class with a method and a nested class, and a function -/
 def rxDefBody : List Stmt := [.classDef ['K'] [] [.funcDef ['g'], .classDef ['N'] [] [.assign ['v'] 1]], .funcDef ['f']]
 
@@ -851,6 +873,18 @@ theorem resolve_sound_reexport_partial_order_counterexample :
     PyImp.pyDenotes (rxProj false false 0).1 [0, 1, 2] 0 [] [['K']] = some (.dfn [['d','d'], ['K']]) ∧
     finalLoc (rxProj false false 0).1 (.dfn [['d','d'], ['K']]) = .dfn [['x','x'], ['K']] ∧
     pdResolve (rxProj false false 0).1 [0, 1, 2] 0 [] [['K']] = some (.dfn [['x','x'], ['K']]) := by decide +kernel
+
+/-- the theorem applied: a consumer that subclasses the moved class under its old name, the re-exporter being a
+package `__init__` that renames the class; `S.g` is inherited from the moved class -/
+example (a b : Ident) (h1 : pdResolve (rxProj true true 0).1 [2, 0, 1] 2 [] [['S'], ['g']] = some a)
+    (h2 : PyImp.pyDenotes (rxProj true true 0).1 [0, 1, 2] 2 [] [['S'], ['g']] = some b) :
+    a = finalLoc (rxProj true true 0).1 b :=
+  resolve_sound_reexport (rxProj true true 0).1 (rxProj true true 0).2 (by decide +kernel) [2, 0, 1] [0, 1, 2]
+    (by decide) 2 (by decide) [] [['S'], ['g']] a b h1 h2
+example : pdResolve (rxProj true true 0).1 [2, 0, 1] 2 [] [['S'], ['g']] = some (.dfn [['p'], ['R'], ['g']]) := by decide +kernel
+example : PyImp.pyDenotes (rxProj true true 0).1 [0, 1, 2] 2 [] [['S'], ['g']] = some (.dfn [['p'], ['_','m'], ['K'], ['g']]) := by
+  decide +kernel
+example : finalLoc (rxProj true true 0).1 (.dfn [['p'], ['_','m'], ['K'], ['g']]) = .dfn [['p'], ['R'], ['g']] := by decide +kernel
 
 def rxFamily : List (Project × List Nat) :=
   [true, false].flatMap fun pkg => [true, false].flatMap fun ren => (List.range 7).map fun form => rxProj pkg ren form
